@@ -62,9 +62,12 @@ static void s_apply_p(void) { mzd_t *A = rnd(70, 130); mzp_t *P = mzp_init(130);
 static void s_movers(void) { mzd_t *A = rnd(40, 100), *B = rnd(40, 70), *C = rnd(30, 100);
   LIB(mzd_concat(NULL, A, B); mzd_stack(NULL, A, C); mzd_submatrix(NULL, A, 3, 7, 30, 90); mzd_copy(NULL, A); mzd_add(NULL, A, A); mzd_extract_u(NULL, A); mzd_extract_l(NULL, A)); }
 static void s_djb(void) { mzd_t *A = rnd(big ? 150 : 80, big ? 200 : 100), *V = rnd(A->ncols, 70), *W = mzd_init(A->nrows, 70); djb_t *z; LIB(z = djb_compile(A); djb_apply_mzd(z, W, V); djb_free(z)); }
-static void s_png_write(void) { mzd_t *A = rnd(33, 77); LIB(mzd_to_png(A, "/tmp/vh_fault.png", 1, "c", 0)); }
-static void s_png_read(void) { mzd_t *A = rnd(33, 77); mzd_to_png(A, "/tmp/vh_fault_r.png", 1, NULL, 0); LIB(mzd_from_png("/tmp/vh_fault_r.png", 0)); }
-static void s_jcf_read(void) { FILE *f = fopen("/tmp/vh_fault.jcf", "w"); fprintf(f, "3 5 2 4\n-1\n2\n-3\n5\n"); fclose(f); LIB(mzd_from_jcf("/tmp/vh_fault.jcf", 0)); }
+/* scratch files: one set per driver process (several shards and checks run at the same time) */
+static int drv_pid;
+static const char *scratch(const char *suffix) { static char fn[64]; snprintf(fn, sizeof fn, "/tmp/vh_fault_%d%s", drv_pid, suffix); return fn; }
+static void s_png_write(void) { mzd_t *A = rnd(33, 77); LIB(mzd_to_png(A, scratch(".png"), 1, "c", 0)); }
+static void s_png_read(void) { mzd_t *A = rnd(33, 77); mzd_to_png(A, scratch("_r.png"), 1, NULL, 0); LIB(mzd_from_png(scratch("_r.png"), 0)); }
+static void s_jcf_read(void) { FILE *f = fopen(scratch(".jcf"), "w"); fprintf(f, "3 5 2 4\n-1\n2\n-3\n5\n"); fclose(f); LIB(mzd_from_jcf(scratch(".jcf"), 0)); }
 static void s_from_str(void) { LIB(mzd_from_str(3, 3, "101010111")); }
 static void s_codes(void) { LIB(m4ri_destroy_all_codes(); m4ri_build_all_codes()); }
 
@@ -125,6 +128,7 @@ static int run_child(const scn_t *s, long i, long *count, int *sig, uint64_t see
 int fam_fault(const vh_args_t *a) {
   big = 1; /* shapes that reach the recursive regimes (small-cache build) in both tiers: a run costs milliseconds */
   vh_nofork = 1;
+  drv_pid = (int)getpid();
   long idx = 0;
   for (const scn_t *s = SCN; s->name; s++, idx++) {
     if (!VH_SHARD(a, idx)) continue;
@@ -145,5 +149,6 @@ int fam_fault(const vh_args_t *a) {
     }
     vh_raw("{\"e\":\"fend\",\"scn\":\"%s\",\"n\":%ld}", s->name, n);
   }
+  unlink(scratch(".png")); unlink(scratch("_r.png")); unlink(scratch(".jcf"));
   return 0;
 }
